@@ -392,7 +392,7 @@ def get_ast_term(t):
                 # if necessary.
                 arg1_ast = helper(arg1, bd_vars)
                 if (op_data.assoc == operator.LEFT and get_priority(arg1) < op_data.priority or
-                    op_data.assoc == operator.RIGHT and get_priority(arg1) <= op_data.priority):
+                    op_data.assoc != operator.LEFT and get_priority(arg1) <= op_data.priority):
                     arg1_ast = Bracket(arg1_ast)
 
                 op_str = op_data.unicode_op if settings.unicode else op_data.ascii_op
@@ -402,7 +402,7 @@ def get_ast_term(t):
                 # Obtain output for second argument, enclose in parenthesis
                 # if necessary.
                 arg2_ast = helper(arg2, bd_vars)
-                if (op_data.assoc == operator.LEFT and get_priority(arg2) <= op_data.priority or
+                if (op_data.assoc != operator.RIGHT and get_priority(arg2) <= op_data.priority or
                     op_data.assoc == operator.RIGHT and get_priority(arg2) < op_data.priority):
                     arg2_ast = Bracket(arg2_ast)
 
